@@ -10,6 +10,8 @@ git -C "$WT" checkout -q --detach "$(git -C /repo rev-parse HEAD)" 2>/dev/null
 git -C "$WT" checkout -q -- . && git -C "$WT" clean -qfd -e target
 if ! git -C "$WT" apply "$PATCH"; then echo "PATCH DOES NOT APPLY: $PATCH"; exit 3; fi
 cd /verif
+# evaluate with a frozen copy of the harness sources, so that the working copy can be edited meanwhile
+if [ -n "${SNAP:-}" ]; then export OALV_HARNESS_DIR="$SNAP"; fi
 for c in "$@"; do
   out=$(OALV_EVIDENCE=/tmp/seeded-evidence OALV_REPLAYS=/tmp/seeded-replays OALV_REPO="$WT" VERIF_SEED="${VERIF_SEED:-1}" ./check "$c" "$TIER" 2>&1)
   code=$?
